@@ -36,6 +36,7 @@ def install_all(reg):
     from . import symbolic
     symbolic.install(reg)
     symbolic.install_structure(reg)
+    symbolic.install_fallback_structure(reg)
     from . import control
     control.install(reg)
     control.install_succession(reg)
